@@ -73,22 +73,26 @@ SpecStep ==
     [] ev.e = "mgr" /\ ev.case = "teardown"  -> MgrTeardown /\ MgrPost
     [] ev.e = "mgr" /\ ev.case = "result"    -> MgrResult /\ oph = ev.r /\ MgrPost
     [] ev.e = "mgr_stopped"  -> MgrExitWait
-    [] ev.e \in {"obs", "end", "stuck"} -> UNCHANGED vars
+    [] ev.e = "obs" -> /\ ev.obs => (hnHeld = ev.hn /\ (ev.rk => resv = ev.resv))   \* projected state agrees
+                       /\ UNCHANGED vars
+    [] ev.e \in {"end", "stuck", "skipped"} -> UNCHANGED vars
     [] OTHER -> FALSE          \* "inapplicable": the implementation was not where the script expected it
 
 Follow == SpecStep /\ hist' = ObsHist
 
 B(x) == IF x THEN 1 ELSE 0
 
-\* "obs": the harness found the implementation quiescent and looked at the inventory and the hostname service
+\* "obs": at a stable point the harness looked at the inventory and the hostname service through the public API;
+\* the C14 obligations "at quiescence" are judged where it found the implementation quiescent (ev.q)
 Report ==
-  IF ev.e = "obs" THEN
+  IF ev.e = "obs" /\ ev.q THEN
     PrintT(<<"RESULT", tid, l, dpos, B(ev.obs), B(conf /\ Quiescent),
              B(NoConcurrentOps(hist)), B(NoDeployAfterTeardownRequested(hist)),
              B(ClosedThenTornDownAndReleased(hist, ev.resv, ev.hn)), B(LastDeployUsesLatestManifest(hist))>>)
-  ELSE IF ev.e = "end" THEN
-    PrintT(<<"END", tid, dpos, B(NoConcurrentOps(hist)), B(NoDeployAfterTeardownRequested(hist))>>)
-  ELSE IF ev.e = "stuck" THEN PrintT(<<"STUCK", tid>>)
+  ELSE IF ev.e \in {"end", "stuck"} THEN
+    /\ PrintT(<<"END", tid, dpos, B(NoConcurrentOps(hist)), B(NoDeployAfterTeardownRequested(hist))>>)
+    /\ ev.e = "stuck" => PrintT(<<"STUCK", tid>>)
+  ELSE IF ev.e = "skipped" THEN PrintT(<<"SKIPPED", tid>>)
   ELSE TRUE
 
 TInit ==
